@@ -1,8 +1,18 @@
 #!/bin/sh
-# Regenerate lean/GaleneVerif/Generated/*.lean from $VERIF_REPO (default /repo). Called by ./check before lake build.
+# Regenerates lean/GaleneVerif/Generated/*.lean from the working tree of $VERIF_REPO (default /repo).
+# Called by ./check before the Lean build: `extract/run.sh [generator ...]`.  params.py (constants) always
+# runs; each named generator extract/gen-<name> runs too (with no arguments: all of them, as setup does).
+# A generator rewrites its file only when the content changes, and fails closed.
 set -e
-cd "$(dirname "$0")"
-mkdir -p ../lean/GaleneVerif/Generated
-python3 params.py
-for x in ./gen_*.sh; do [ -x "$x" ] && "$x"; done
-exit 0
+cd "$(dirname "$0")/.."
+mkdir -p lean/GaleneVerif/Generated
+python3 extract/params.py
+if [ $# -eq 0 ]; then
+  for g in extract/gen-*; do
+    if [ -x "$g" ]; then "$g"; fi
+  done
+else
+  for n in "$@"; do
+    [ "$n" = "--none" ] || "extract/gen-$n"
+  done
+fi
